@@ -660,6 +660,9 @@ func (s *Store) GetFunctionTypeID(t *FunctionType) (FunctionTypeID, error) {
 		if id, ok = s.typeIDs[key]; ok {
 			return id, nil
 		}
+		if s.typeIDs == nil {
+			return 0, errors.New("already closed")
+		}
 		l := len(s.typeIDs)
 		if uint32(l) >= s.functionMaxTypes {
 			return 0, fmt.Errorf("too many function types in a store")
